@@ -173,13 +173,6 @@ def Sys.record (m : Sys) (op : Op) (s' : St) : Sys :=
   | .mkDriver d => { m with st := s', drvs := addNew m.drvs d }
   | _ => { m with st := s' }
 
-/-- what the harness destroys at the end of a history, in its order -/
-def implicitEnd (s : St) (socks todos drvs : List Nat) : List Op :=
-  (socks.flatMap fun i => if (s.sock i).alive then [Op.release i, Op.destroySock i] else []) ++
-  (todos.flatMap fun t => if (s.todo t).handle then [Op.dropTodo t] else []) ++
-  (drvs.flatMap fun d => if (s.drv d).alive then [Op.destroyDriver d] else []) ++
-  (if s.poolAlive then [Op.destroyPool] else [])
-
 def insertEv (e : Ev) : List Ev → List Ev
   | [] => [e]
   | x :: xs => if futKey e ≤ futKey x then e :: x :: xs else x :: insertEv e xs
@@ -756,5 +749,115 @@ theorem step_ok (accept : Nat → Bool) {m : Sys} {sp : SpecSt} (hrel : Rel m sp
             rw [hother j hji] at hj'
             exact .inl (hrel.cover j hj')
         nd := ⟨addNew_nodup hrel.nd.1 i, hrel.nd.2.1, hrel.nd.2.2⟩ }
+
+theorem finish_done (sp : SpecSt) (A : List Item) : finish sp (A ++ [.done]) = finish sp A := by
+  unfold finish
+  rw [observe_append]
+  cases observe sp A with
+  | ok sp' => rfl
+  | error e => rfl
+
+/-- the end of the history: what the harness destroys is a legal continuation for the model, which then has no
+socket alive and no future pending; the spec accepts its reports -/
+theorem end_ok (accept : Nat → Bool) {m : Sys} {sp : SpecSt} (hrel : Rel m sp) :
+    ∃ sp', specStep sp (modelEnd accept m) = .ok sp' ∧ sp'.ended = true := by
+  obtain ⟨hleg, hplain, hdead, hpend⟩ := end_legal hrel.linv hrel.finv hrel.nd hrel.cover
+  have hL' := hrel.linv.run _ hleg
+  have hF' := hrel.finv.run .fixed (implicitEnd m.st m.socks m.todos m.drvs)
+  have hG' := hrel.loginv.run hrel.linv _ hleg
+  have htr := Tr.run_plain _ m.st hplain
+  obtain ⟨D, hgrow, hH⟩ := htr.grow
+  have hpi : pendingItems (run .fixed m.st (implicitEnd m.st m.socks m.todos m.drvs)) = [] := by
+    unfold pendingItems
+    rw [List.map_eq_nil_iff, List.filter_eq_nil_iff]
+    intro j _
+    rw [hpend j]; simp
+  unfold modelEnd
+  simp only [specStep, hpi, List.append_nil]
+  rw [if_neg (by
+    intro h
+    have : Item.done ∈ [Item.skipped] := by rw [← h]; simp
+    simp at this)]
+  rw [finish_done]
+  obtain ⟨R, hfin, _⟩ := finish_ok accept (sp1 := { sp with dead := sp.socks ++ sp.dead, ended := true })
+    (sp1' := { sp with dead := sp.socks ++ sp.dead, ended := true }) hgrow hL'.ub hG' hF' hrel.res
+    (by
+      intro id i hm
+      obtain ⟨st, hst⟩ := hrel.futOf id i hm
+      exact htr.futs id i st hst)
+    (by rw [hH]; rfl) rfl rfl (fun i _ => hdead i)
+  exact ⟨_, after_ok hfin, rfl⟩
+
+theorem model_satisfies_spec_from (accept : Nat → Bool) : ∀ (history : List Op) (m : Sys) (sp : SpecSt), Rel m sp →
+    ∃ s, specRun sp (modelTrace accept m history) = .ok s ∧ s.ended = true := by
+  intro history
+  induction history with
+  | nil =>
+    intro m sp hrel
+    obtain ⟨sp', h1, h2⟩ := end_ok accept hrel
+    exact ⟨sp', by simp only [modelTrace, specRun, h1], h2⟩
+  | cons op ops ih =>
+    intro m sp hrel
+    obtain ⟨sp', h1, hrel'⟩ := step_ok accept hrel op
+    obtain ⟨s, h2, h3⟩ := ih _ sp' hrel'
+    exact ⟨s, by simp only [modelTrace, specRun, h1]; exact h2, h3⟩
+
+/-- **The property predicate that `./check C17` evaluates on the implementation is a theorem of the model.**
+For every history - any list of operations of any length over any number of drivers, sockets and ToDos, legal
+or not: an operation that breaks a usage rule (`legalOp`) is refused, as the harness refuses it - and every way
+the kernel may treat writes to a peer that has closed (`accept`), the observations the model produces (handler
+invocations and future states logged by `exec`, a crash where the model reaches undefined behaviour, and at the
+end the destruction of everything that is left followed by the futures still pending) are accepted by every
+clause of the spec: no crash, no handler of a destroyed socket, no future reported twice or pending, no future
+of a destroyed socket unreported after any operation, and the history runs to its end. -/
+theorem model_satisfies_spec (accept : Nat → Bool) (history : List Op) :
+    ∃ s, specRun {} (modelTrace accept {} history) = .ok s ∧ specEnd s = .ok () := by
+  obtain ⟨s, h1, h2⟩ := model_satisfies_spec_from accept history {} {} rel_init
+  exact ⟨s, h1, by simp [specEnd, h2]⟩
+
+theorem model_passes_check (accept : Nat → Bool) (history : List Op) :
+    specCheck (modelTrace accept {} history) = .ok () := by
+  obtain ⟨s, h1, h2⟩ := model_satisfies_spec accept history
+  simp only [specCheck, h1, h2]
+
+/-! ### non-vacuity -/
+
+/-- a concrete history with everything in it: a peer that closes, a disconnect handler that destroys its socket
+with a send pending (broken promise), a send on the destroyed socket (refused), a UDP send resolved by a step, a
+ToDo, the driver destroyed before its sockets, and the implicit destruction at the end -/
+def demoHistory : List Op :=
+  [.mkDriver 0, .mkSock 0 .tcp 0 true false false, .mkSock 1 .udp 0 false false false, .mkTodo 1 0 true,
+   .send 0, .peerClose 0, .step 0, .send 0, .send 1, .step 0, .send 1, .destroyDriver 0, .step 0, .shift 1]
+
+example : (modelTrace (fun _ => true) {} demoHistory).length = 15 := rfl
+
+/-- the step that runs the ToDo and the disconnect handler, which destroys socket 0 and breaks its promise -/
+example : (modelTrace (fun _ => true) {} demoHistory)[6]? =
+    some (.op "step 0" (.step 0) [.todo 1, .handler .disc 0, .fut 0 .broken]) := by rfl
+
+/-- `Send` on the destroyed socket is refused, as in the harness -/
+example : (modelTrace (fun _ => true) {} demoHistory)[7]? = some (.op "send 0" (.send 0) [.skipped]) := by rfl
+
+/-- at the end the UDP socket dies with its second send pending: broken promise, nothing left pending -/
+example : (modelTrace (fun _ => true) {} demoHistory)[14]? = some (.fin "end" [.fut 2 .broken, .done]) := by rfl
+
+example : specCheck (modelTrace (fun _ => true) {} demoHistory) = .ok () := by rfl
+
+/-- the spec rejects a handler that runs after its socket was destroyed ... -/
+example : specRun {} [.op "sock 0 tcp 0 0 0 0" (.mkSock 0 .tcp 0 false false false) [],
+      .op "dsock 0" (.destroySock 0) [], .op "step 0" (.step 0) [.handler .recv 0]] =
+    .error "after 'step 0': handler 'recv' of socket 0 invoked after the socket was destroyed" := by rfl
+
+/-- ... a future left dangling when its socket is destroyed ... -/
+example : specRun {} [.op "send 0" (.send 0) [], .op "dsock 0" (.destroySock 0) []] =
+    .error "after 'dsock 0': future 0 of destroyed socket 0 was not released (neither value, exception nor broken promise)" := by
+  rfl
+
+/-- ... a future still pending at the end, a crash, and a history that does not reach its end -/
+example : specRun {} [.op "send 0" (.send 0) [], .fin "end" [.fut 0 .pending, .done]] =
+    .error "after 'end': future 0 is still pending after its socket was destroyed (dangling)" := by rfl
+example : specRun {} [.op "cancel 1" (.cancel 1) [.crash "signal 6"]] = .error "after 'cancel 1': crash: signal 6" := by rfl
+example : specCheck [.op "step 0" (.step 0) []] =
+    .error "history did not run to its end (harness died without a report)" := by rfl
 
 end SockModel.Lifecycle
